@@ -12,6 +12,7 @@ import (
 	"time"
 
 	atomicx "github.com/pion/ice/v4/internal/atomic"
+	"github.com/pion/ice/v4/internal/verifhook"
 )
 
 // ErrClosed indicates that the loop has been stopped.
@@ -49,16 +50,23 @@ func New(onClose func()) *Loop {
 // runLoop handles registered tasks and agent close.
 func (l *Loop) runLoop(onClose func()) {
 	defer func() {
+		verifhook.Yield("loop.onclose")
 		onClose()
+		verifhook.Yield("loop.exit")
 		close(l.taskLoopDone)
 	}()
 
 	for {
+		verifhook.Yield("loop.select")
 		select {
 		case <-l.done:
+			verifhook.Yield("loop.stop")
+
 			return
 		case t := <-l.tasks:
+			verifhook.Yield("loop.got")
 			t.fn(l)
+			verifhook.Yield("loop.ran")
 			close(t.done)
 		}
 	}
@@ -74,6 +82,7 @@ func (l *Loop) Close() {
 // It calls preStop after the loop is marked closed and before waiting for the
 // current task to return.
 func (l *Loop) CloseWithPreStop(preStop func()) {
+	verifhook.Yield("close.once")
 	l.closeOnce.Do(func() {
 		l.err.Store(ErrClosed)
 
@@ -82,23 +91,33 @@ func (l *Loop) CloseWithPreStop(preStop func()) {
 			preStop()
 		}
 	})
+	verifhook.Yield("close.wait")
 	<-l.taskLoopDone
+	verifhook.Yield("close.ret")
 }
 
 // Run serially executes the submitted callback.
 // Blocking tasks must be cancelable by context.
 func (l *Loop) Run(ctx context.Context, t func(context.Context)) error {
+	verifhook.Yield("run.errcheck")
 	if err := l.Err(); err != nil {
 		return err
 	}
 	done := make(chan struct{})
+	verifhook.Yield("run.select")
 	select {
 	case <-ctx.Done():
+		verifhook.Yield("run.ctxdone")
+
 		return ctx.Err()
 	case <-l.done:
+		verifhook.Yield("run.closed")
+
 		return ErrClosed
 	case l.tasks <- task{t, done}:
+		verifhook.Yield("run.sent")
 		<-done
+		verifhook.Yield("run.done")
 
 		return nil
 	}
